@@ -1069,6 +1069,93 @@ fn frame_cases(r: &mut Rng) -> Vec<Case> {
     v
 }
 
+// ------------------------------------------------------------------ source inventory
+/// Every textual construction / match of a `TabExpandedString` variant in /repo/src outside the
+/// `#[cfg(test)] mod ..` blocks, as (file, enclosing fn, token, count).  This is the list that
+/// `Builder.tes_made` (theorem C14_notabs_assert_unreachable) was read from: `new` (NoTabs exactly for
+/// tab-free text), the literal `NoTabs("")` of ProgressState::new, `set_tab_width` / `expanded` only
+/// match on the variant.  A site that is not in the list fails with `unaudited-tabexpandedstring-site`.
+const TES_TOKENS: [&str; 5] = ["TabExpandedString::NoTabs(", "TabExpandedString::WithTabs {", "TabExpandedString::new(", "Self::NoTabs(", "Self::WithTabs {"];
+const TES_AUDITED: [(&str, &str, &str, usize); 12] = [
+    ("progress_bar.rs", "with_prefix", "TabExpandedString::new(", 1),
+    ("progress_bar.rs", "with_message", "TabExpandedString::new(", 1),
+    ("progress_bar.rs", "set_prefix", "TabExpandedString::new(", 1),
+    ("progress_bar.rs", "set_message", "TabExpandedString::new(", 1),
+    ("state.rs", "finish_using_style", "TabExpandedString::new(", 2),
+    ("state.rs", "new", "TabExpandedString::NoTabs(", 2), // ProgressState::new: NoTabs("".into()) twice
+    ("state.rs", "new", "Self::NoTabs(", 1),              // TabExpandedString::new, tab-free branch
+    ("state.rs", "new", "Self::WithTabs {", 1),           // TabExpandedString::new, the other branch
+    ("state.rs", "expanded", "Self::NoTabs(", 1),         // match arm (holds the debug_assert)
+    ("state.rs", "expanded", "Self::WithTabs {", 1),      // match arm
+    ("state.rs", "set_tab_width", "Self::WithTabs {", 1), // if let
+    ("style.rs", "from_str_with_tab_width", "TabExpandedString::new(", 4),
+];
+
+fn tes_site_inventory(s: &mut Session) {
+    let repo = std::env::var("VERIF_REPO").unwrap_or_else(|_| "/repo".into());
+    let dir = std::path::Path::new(&repo).join("src");
+    let mut found: std::collections::BTreeMap<(String, String, String), usize> = Default::default();
+    let mut files: Vec<_> = match std::fs::read_dir(&dir) {
+        Ok(d) => d.filter_map(|e| e.ok()).map(|e| e.path()).filter(|p| p.extension().map_or(false, |x| x == "rs")).collect(),
+        Err(e) => {
+            s.fail("source-inventory", format!("cannot read {}: {e}", dir.display()), "TabExpandedString sites".into());
+            return;
+        }
+    };
+    files.sort();
+    for f in files {
+        let name = f.file_name().unwrap().to_string_lossy().to_string();
+        let text = std::fs::read_to_string(&f).unwrap_or_default();
+        let lines: Vec<&str> = text.lines().collect();
+        let (mut func, mut in_tests) = (String::from("<top>"), false);
+        for (i, l) in lines.iter().enumerate() {
+            // a test module: `#[cfg(test)]` directly followed by `mod ..` (they end the files of this crate)
+            if l.trim_start().starts_with("#[cfg(test)]") && lines.get(i + 1).map_or(false, |n| n.trim_start().starts_with("mod ")) {
+                in_tests = true;
+            }
+            if in_tests {
+                continue;
+            }
+            if let Some(p) = l.find("fn ") {
+                let before_ok = p == 0 || !l.as_bytes()[p - 1].is_ascii_alphanumeric() && l.as_bytes()[p - 1] != b'_';
+                let id: String = l[p + 3..].chars().take_while(|c| c.is_ascii_alphanumeric() || *c == '_').collect();
+                if before_ok && !id.is_empty() && !l.trim_start().starts_with("//") {
+                    func = id;
+                }
+            }
+            if l.trim_start().starts_with("//") {
+                continue;
+            }
+            for t in TES_TOKENS {
+                let k = l.matches(t).count();
+                if k > 0 {
+                    *found.entry((name.clone(), func.clone(), t.to_string())).or_insert(0) += k;
+                }
+            }
+        }
+    }
+    let mut total = 0;
+    for ((file, func, tok), k) in &found {
+        total += k;
+        let audited = TES_AUDITED.iter().find(|a| a.0 == file && a.1 == func && a.2 == tok).map_or(0, |a| a.3);
+        if *k > audited {
+            s.fail(
+                "unaudited-tabexpandedstring-site",
+                format!("{file}: fn {func} holds {k} x `{tok}` but the audited list (Builder.tes_made) has {audited}"),
+                "source inventory of TabExpandedString constructions".into(),
+            );
+        }
+    }
+    for a in TES_AUDITED {
+        let k = found.get(&(a.0.to_string(), a.1.to_string(), a.2.to_string())).copied().unwrap_or(0);
+        if k < a.3 {
+            s.notes.push(format!("audited TabExpandedString site gone or moved: {} fn {} `{}` ({} of {})", a.0, a.1, a.2, k, a.3));
+        }
+    }
+    s.count_n("inventory:tabexpandedstring-sites", total as u64);
+    s.oracle_only(format!("source inventory: {total} TabExpandedString construction / match sites in {}", dir.display()), true);
+}
+
 // ------------------------------------------------------------------ release twin
 fn release_twin(a: &Args, s: &mut Session, outcomes: &[String], descs: &[String]) {
     use std::process::Command;
@@ -1170,6 +1257,9 @@ fn main() {
                 s.notes.push(format!("cluster {:?} measures {} (table says {w})", esc(c), meas(c)));
             }
         }
+    }
+    if !child {
+        tes_site_inventory(&mut s);
     }
     let mut outcomes = vec![];
     let mut descs = vec![];
